@@ -480,6 +480,7 @@ func init() {
 		cases := fs.String("cases", "cases.ndjson", "")
 		out := fs.String("out", "trace.ndjson", "")
 		prop := fs.String("prop", "C11", "")
+		tag := fs.String("tag", "case", "")
 		shard := fs.Int("shard", 0, "")
 		nshards := fs.Int("nshards", 1, "")
 		fs.Parse(args)
@@ -522,7 +523,7 @@ func init() {
 				if !realizable {
 					unreal++
 				}
-				poolEvent(f, fmt.Sprintf("%s-case-%d", *prop, kk), kind, c.W, c.N, c.ErrAt, mismatch, true, realizable, got, seq, glog)
+				poolEvent(f, fmt.Sprintf("%s-%s-%d", *prop, *tag, kk), kind, c.W, c.N, c.ErrAt, mismatch, true, realizable, got, seq, glog)
 				n++
 				if !got.terminated || !seq.terminated {
 					hung++
